@@ -1,4 +1,16 @@
 import FFVerif.Props.C07
+import FFVerif.Pins.C07_body_get_control_matrix
+import FFVerif.Pins.C07_body_cache_control_matrix
+import FFVerif.Pins.C07_body_get_filter_function
+import FFVerif.Pins.C07_body_cache_filter_function
+import FFVerif.Pins.C07_body_get_pulse_correlation_filter_function
+import FFVerif.Pins.C07_body_get_filter_function_derivative
+import FFVerif.Pins.C07_body_get_total_phases
+import FFVerif.Pins.C07_body_cache_total_phases
+import FFVerif.Pins.C07_body_diagonalize
+import FFVerif.Pins.C07_body_copy
+import FFVerif.Pins.C07_body_deepcopy
+import FFVerif.Pins.C07_body_get_pulse_correlation_control_matrix
 #print axioms FFVerif.C07.cleanup_freq
 #print axioms FFVerif.C07.cleanup_conservative
 #print axioms FFVerif.C07.cleanup_greedy
@@ -24,3 +36,15 @@ import FFVerif.Props.C07
 #print axioms FFVerif.C07.hstep_preserves
 #print axioms FFVerif.C07.heap_reachable_Inv
 #print axioms FFVerif.C07.heap_served_fresh
+#print axioms FFVerif.C07.body_get_control_matrix
+#print axioms FFVerif.C07.body_cache_control_matrix
+#print axioms FFVerif.C07.body_get_filter_function
+#print axioms FFVerif.C07.body_cache_filter_function
+#print axioms FFVerif.C07.body_get_pulse_correlation_filter_function
+#print axioms FFVerif.C07.body_get_filter_function_derivative
+#print axioms FFVerif.C07.body_get_total_phases
+#print axioms FFVerif.C07.body_cache_total_phases
+#print axioms FFVerif.C07.body_diagonalize
+#print axioms FFVerif.C07.body_copy
+#print axioms FFVerif.C07.body_deepcopy
+#print axioms FFVerif.C07.body_get_pulse_correlation_control_matrix
